@@ -2,7 +2,7 @@ SPECIFICATION Spec
 CONSTANTS
   InnerOps <- ThoroughInner
   RootOps <- AllOps
-  NSample = 3000
-  NDictSample = 2000
+  NSample = 2000
+  NDictSample = 1000
   Chunk = 0
   NChunks = 1
